@@ -206,6 +206,10 @@ func c08Instance(c *fw.Ctx, kind c08Kind, mtu int, inputs [][]byte, inKinds []st
 	if kind.codec == "vp8" || kind.codec == "vp9" {
 		// instances that have already sent frames: descriptor sizes change with the running picture id (7 -> 15 bit at 128)
 		warm := []int{0, 0, 126, 127, 128}[len(inputs)%5]
+		if c.Index%61 == 7 {
+			warm = 32766 + len(inputs)%4 // ... and wrap back to the short form after 32768 frames
+			c.Count("instances_warmed_up_across_the_15_bit_wrap", 1)
+		}
 		for w := 0; w < warm; w++ {
 			a.Payload(1200, []byte{0x82, 0x49, 0x83, 0x42, 0x00})
 			b.Payload(1200, []byte{0x82, 0x49, 0x83, 0x42, 0x00})
